@@ -6,6 +6,7 @@
    Poison::Poisoned; inner nodes either collect the errors of all children
    (Vec, tuples) or stop at the first failing child (`?` chains). *)
 From PV Require Import Base.Common.
+From PV Require Model.TypeLegal Model.Autoderef Proofs.AutoderefProofs.
 
 Inductive tree :=
 | TOk
@@ -127,6 +128,63 @@ Qed.
 Example C02_example : resolve (TAll [TOk; TSeq [TPoisoned; TErr 500]; TErr 402]%N) = Some [402%N].
 Proof. reflexivity. Qed.
 
+(* ---- the typer's implicit steps (Model/Autoderef.v: value_type.rs coercion predicates, typer.rs
+   Reference::autoderef with its three panics, the consumer generator.rs generate_autocoerce) ------------
+   For every reference that fits its base type (what get_type_of_reference accepts), of at most
+   MAX_REFERENCE_DEPTH steps, over types whose runs of & / view constructors are at most
+   MAX_ADDRESS_DEPTH + 1 long: the loop never reaches its panic, never meets an unreachable!() on a
+   member, the budget MAX_NUM_AUTODEREF_STEPS (Gen/Limits.v) is never exhausted (no step is dropped),
+   and the ONLY panic left is the listed finding D11 - exactly when the reference ends at a slice pointer
+   `&[]T` that is used as it stands or behind one `&` for another target. *)
+Theorem C02_autoderef_loop_total : forall mt known steps,
+  Autoderef.fits mt known steps = true ->
+  AutoderefProofs.steps_within steps ->
+  AutoderefProofs.types_within mt known ->
+  exists taken ct,
+    Autoderef.autoderef_loop mt Autoderef.max_num_autoderef_steps known steps = Autoderef.LoopDone taken ct [] /\
+    Autoderef.walk mt known steps = Autoderef.LoopDone taken ct [] /\
+    Autoderef.ref_final mt (Autoderef.fully_dereferenced known) steps = Some (Autoderef.fully_dereferenced ct).
+Proof. exact AutoderefProofs.loop_total. Qed.
+
+Theorem C02_autoderef_panics_only_as_D11 : forall mt known target steps ad,
+  Autoderef.fits mt known steps = true ->
+  AutoderefProofs.steps_within steps ->
+  AutoderefProofs.types_within mt known ->
+  forall s,
+    Autoderef.autoderef mt known target steps ad = Autoderef.ADPanic s <->
+    s = 3%N /\ AutoderefProofs.autoderef_panics mt known target steps ad = true.
+Proof. exact AutoderefProofs.autoderef_no_solution_iff. Qed.
+
+Theorem C02_D11_is_a_slice_pointer : forall mt known target steps ad,
+  AutoderefProofs.autoderef_panics mt known target steps ad = true ->
+  exists e, AutoderefProofs.final_type mt known steps = Some (TypeLegal.VSlicePointer e) /\ (ad = 0 \/ ad = 1)%N.
+Proof. exact AutoderefProofs.autoderef_no_solution_shape. Qed.
+
+(* the class is inhabited: the repository's own sample (use_slice(data) with data: &[]i32) *)
+Theorem C02_D11_witness :
+  Autoderef.analyze_deref AutoderefProofs.no_members (TypeLegal.VSlicePointer (TypeLegal.VPrim TypeLegal.KInt32)) [] 0
+    (Some (TypeLegal.VSlice (TypeLegal.VPrim TypeLegal.KInt32))) = Some (Autoderef.ADPanic 3).
+Proof. exact AutoderefProofs.d11_use_slice. Qed.
+
+(* typer and generator agree: every coercion the typer's autoderef (or its argument wrapper, around a
+   dereference) asks for is one generate_autocoerce implements - none of its unimplemented!() /
+   unreachable!() arms can be reached from there *)
+Theorem C02_autoderef_coercions_are_implemented : forall mt env known target steps ad tk ta dt c,
+  Autoderef.autoderef mt known target steps ad = Autoderef.ADOk tk ta dt (Some c) ->
+  Autoderef.arm_ok (Autoderef.autocoerce_arm (Autoderef.EDeref ta (Autoderef.resolve_vt env dt)) (Autoderef.resolve_vt env c)) = true.
+Proof. exact AutoderefProofs.autoderef_coercion_ok. Qed.
+
+Theorem C02_argument_coercions_are_implemented : forall env b vt0 pt c,
+  Autoderef.argument_coercion vt0 pt = Some c ->
+  AutoderefProofs.arm_simple (Autoderef.autocoerce_arm (Autoderef.EDeref b (Autoderef.resolve_vt env vt0)) (Autoderef.resolve_vt env c)) = true.
+Proof. exact AutoderefProofs.argument_coercion_of_deref_implemented. Qed.
+
 Print Assumptions C02_resolve_ok_iff.
 Print Assumptions C02_silent_failure_needs_poison.
 Print Assumptions C02_errors_reported_when_collected.
+Print Assumptions C02_autoderef_loop_total.
+Print Assumptions C02_autoderef_panics_only_as_D11.
+Print Assumptions C02_D11_is_a_slice_pointer.
+Print Assumptions C02_D11_witness.
+Print Assumptions C02_autoderef_coercions_are_implemented.
+Print Assumptions C02_argument_coercions_are_implemented.
